@@ -169,6 +169,15 @@ func (h *Hub) CancelPairingWithSKI(ski string) {
 
 	if existingC := h.connectionForSKI(ski); existingC != nil {
 		existingC.AbortPendingHandshake()
+
+		// a handshake can only be aborted while it waits in its hello phase. In any other state it would go on
+		// and complete (or already is completed) although the pairing got cancelled, so end that connection
+		switch state, _ := existingC.ShipHandshakeState(); state {
+		case model.SmeHelloStateAbort, model.SmeHelloStateAbortDone,
+			model.SmeHelloStateRemoteAbortDone, model.SmeHelloStateRejected, model.SmeStateError:
+		default:
+			existingC.CloseConnection(true, 4500, "User close")
+		}
 	}
 
 	service := h.ServiceForSKI(ski)
